@@ -159,6 +159,14 @@ CHECKS = [
         "Trusted: mc/spec.py (names, modes, versions >= 3 cross-checked with PyTeal at start; costs and v1/v2 versions single source).",
         "exhaustive enumeration of the opcode x field x version table and of class-representative pairs against an independent specification table",
         "DESIGN.md 3/C19"),
+    chk("C20", "model_checking",
+        "All G1 programs (joins, loops, dead code, calls) x every label, `*` and a missing label x every window of 1-4 source lines and "
+        "every one-line alteration of it (present, absent, overlapping, block-spanning, unreachable): match_regex must return exactly "
+        "the occurrences reachable from the label on the reference instruction graph (each listed in order, along single-successor "
+        "chains), and the covered set must lie within, and contain all unmatched instructions of, the paths from the label to a match.",
+        "Trusted: reference instruction graph mc/refcfg.py. Patterns with a non-final `b` are not used.",
+        "bounded-exhaustive enumeration of (program, label, pattern) with explicit forward/backward reachability on a reference instruction graph",
+        "DESIGN.md 3/C20"),
 ]
 
 _PENDING = "check not built yet in this session (work in progress; see DESIGN.md section 3 for the planned check)"
